@@ -5,6 +5,7 @@ namespace Percival.Proofs.ParsenumFloat
 open Percival.Spec.Numeral Percival.Spec.FloatNumeral Percival.Model.Strto Percival.Model.Strtod Percival.Model.ParsenumFloat
 open Percival.Proofs.FloatNumeral
 open Percival.Model.Parsenum (malformed)
+open Percival.Spec.Ieee (Fl)
 
 /-- `((*x = 1, *x /= 2) > 0)` holds for `float` and `double` -/
 theorem probeFloat_true (t : FTy) : probeFloat t = true := by
@@ -206,5 +207,39 @@ theorem strtod_of_accepts {tr : Bool} {s : List UInt8} {neg : Bool} {sub : Subje
     (strtod s).val = (toDouble neg sub).1 ∧ (strtod s).errno = (toDouble neg sub).2 := by
   obtain ⟨e, hs, _⟩ := (faccepts_iff_scan tr s neg sub).mp h
   rw [strtod_of_scanF hs]; exact ⟨rfl, rfl⟩
+
+/-! ### the macro's answer in terms of the grammar and the model's `toDouble` -/
+
+theorem parsenum_ok_iff_toDouble (t : FTy) (bs : List UInt8) (min max : Fl) (trailing : Bool) (v : Fl) :
+    Model.ParsenumFloat.parsenum t bs min max 0 trailing = .ok v ↔
+      ∃ neg sub, FAccepts trailing (cstr bs) neg sub ∧ (toDouble neg sub).2 = .ok ∧
+        Fl.lt (toDouble neg sub).1 min = false ∧ Fl.lt max (toDouble neg sub).1 = false ∧
+        v = fstore t (toDouble neg sub).1 := by
+  unfold Model.ParsenumFloat.parsenum; rw [ex6_float, expectedF_ok_iff]
+  constructor
+  · rintro ⟨h1, h2, h3, h4, h5, h6⟩
+    obtain ⟨neg, sub, hacc⟩ := (consumed_iff trailing (cstr bs)).mp ⟨h1, h2⟩
+    obtain ⟨e1, e2⟩ := strtod_of_accepts hacc
+    exact ⟨neg, sub, hacc, e2 ▸ h3, e1 ▸ h4, e1 ▸ h5, e1 ▸ h6⟩
+  · rintro ⟨neg, sub, hacc, h3, h4, h5, h6⟩
+    obtain ⟨h1, h2⟩ := (consumed_iff trailing (cstr bs)).mpr ⟨neg, sub, hacc⟩
+    obtain ⟨e1, e2⟩ := strtod_of_accepts hacc
+    exact ⟨h1, h2, e2 ▸ h3, e1 ▸ h4, e1 ▸ h5, e1 ▸ h6⟩
+
+theorem parsenum_erange_iff_toDouble (t : FTy) (bs : List UInt8) (min max : Fl) (trailing : Bool) :
+    Model.ParsenumFloat.parsenum t bs min max 0 trailing = .erange ↔
+      ∃ neg sub, FAccepts trailing (cstr bs) neg sub ∧
+        (Fl.lt (toDouble neg sub).1 min = true ∨ Fl.lt max (toDouble neg sub).1 = true ∨
+          (toDouble neg sub).2 = .erange) := by
+  unfold Model.ParsenumFloat.parsenum; rw [ex6_float, expectedF_erange_iff]
+  constructor
+  · rintro ⟨h1, h2, h3⟩
+    obtain ⟨neg, sub, hacc⟩ := (consumed_iff trailing (cstr bs)).mp ⟨h1, h2⟩
+    obtain ⟨e1, e2⟩ := strtod_of_accepts hacc
+    exact ⟨neg, sub, hacc, e1 ▸ e2 ▸ h3⟩
+  · rintro ⟨neg, sub, hacc, h3⟩
+    obtain ⟨h1, h2⟩ := (consumed_iff trailing (cstr bs)).mpr ⟨neg, sub, hacc⟩
+    obtain ⟨e1, e2⟩ := strtod_of_accepts hacc
+    exact ⟨h1, h2, e1 ▸ e2 ▸ h3⟩
 
 end Percival.Proofs.ParsenumFloat
